@@ -16,6 +16,7 @@ import (
 	"math/rand"
 	"sort"
 	"strings"
+	"unicode/utf8"
 
 	"github.com/ThreeDotsLabs/watermill/components/cqrs"
 	"github.com/ThreeDotsLabs/watermill/components/forwarder"
@@ -705,6 +706,15 @@ func (g *gen) envCases(n, big int) []envCase {
 			}
 		}
 		c := envCase{Dest: hx(dest), M: obsMsg(m), LibEnc: libEnc(dest, m)}
+		c.Valid = utf8.ValidString(dest) && utf8.ValidString(m.UUID)
+		for k, v := range m.Metadata {
+			c.Valid = c.Valid && utf8.ValidString(k) && utf8.ValidString(v)
+		}
+		if c.Valid {
+			g.count("envelope:all-strings-valid-utf8")
+		} else {
+			g.count("envelope:some-string-invalid-utf8")
+		}
 		w, err := forwarder.VerifWrapMessageInEnvelope(dest, m)
 		if err != nil {
 			c.WrapErr = classifyEnvErr(err)
@@ -1179,6 +1189,56 @@ func (g *gen) ruCases(n int) []ruCase {
 	return out
 }
 
+// ---------------------------------------------------------------- UTF-8 validity (ties the Gallina utf8_valid to Go's)
+
+type u8Case struct {
+	S     string `json:"s"`
+	Valid bool   `json:"valid"`
+}
+
+func (g *gen) u8Cases(n int) []u8Case {
+	var out []u8Case
+	add := func(b []byte) { out = append(out, u8Case{S: hex.EncodeToString(b), Valid: utf8.Valid(b)}) }
+	// boundary sweep: every interesting lead byte x second byte x optional third / fourth
+	leads := []byte{0x7f, 0x80, 0xbf, 0xc0, 0xc1, 0xc2, 0xdf, 0xe0, 0xe1, 0xec, 0xed, 0xee, 0xef, 0xf0, 0xf1, 0xf3, 0xf4, 0xf5, 0xff}
+	seconds := []byte{0x7f, 0x80, 0x8f, 0x90, 0x9f, 0xa0, 0xbf, 0xc0}
+	tails := [][]byte{{}, {0x80}, {0xbf}, {0x7f}, {0x80, 0x80}, {0xbf, 0xbf}, {0x80, 0xc0}, {0x80, 0x80, 0x80}, {0x80, 0x80, 0x41}}
+	for _, l := range leads {
+		add([]byte{l})
+		for _, s := range seconds {
+			for _, t := range tails {
+				add(append([]byte{l, s}, t...))
+			}
+		}
+	}
+	for i := 0; i < n; i++ {
+		b := []byte(g.str(true) + g.str(true))
+		switch g.r.Intn(4) {
+		case 0:
+			if len(b) > 0 {
+				b[g.r.Intn(len(b))] ^= byte(1 << uint(g.r.Intn(8)))
+			}
+		case 1:
+			if len(b) > 0 {
+				i := g.r.Intn(len(b))
+				b = append(b[:i:i], b[i+1:]...)
+			}
+		case 2:
+			b = make([]byte, 1+g.r.Intn(6))
+			g.r.Read(b)
+		}
+		add(b)
+	}
+	for _, c := range out {
+		if c.Valid {
+			g.count("utf8-validator:valid")
+		} else {
+			g.count("utf8-validator:invalid")
+		}
+	}
+	return out
+}
+
 // ---------------------------------------------------------------- main
 
 func runC16(args []string) error {
@@ -1198,6 +1258,7 @@ func runC16(args []string) error {
 		"nfm":  g.nfmCases(60 * s),
 		"rp":   g.rpCases(200 * s),
 		"ru":   g.ruCases(60 * s),
+		"u8":   g.u8Cases(300 * s),
 		"dist": g.dist,
 		"keys": map[string]string{"error": hx(requestreply.ErrorMetadataKey), "has_error": hx(requestreply.HasErrorMetadataKey)},
 	}
